@@ -264,7 +264,7 @@ def check_C10(tier):
         "C10", tier, ["x86", "a64", "rv64"], plan, extra_viols=mc["viols"], directed=directed,
         extra_cov={"design_model": {"module": "spec/AxCutHeap.tla", "invariant": "Footprint (frontier <= peak reachable + 1)", "distinct_states": mc["states"],
                                     "states_generated": mc["transitions"], "notes": mc["notes"]}}, maxsteps=T(tier, 60000, 1500000), nblocks=160, timeout=T(tier, 900, 7000),
-        extra=loops_extra(tier), post=lambda *a: same_frontier(*a) + conf(*a), level="model_checking",
+        extra=loops_extra(tier), post=lambda *a: same_frontier(*a) + conf(*a), level="model_checking", skip_counts=True,
         extra_rule="Footprint: frontier <= peak reachable blocks + 2 at every statement boundary; build-and-drop loops "
                    "(corpus/loops) run with n = 0,1,4,16(,64,256) iterations and must end with the same frontier for n >= 4; "
                    "the allocator design model's mutator histories (BFS sample and every random deep history of the TLC "
@@ -391,7 +391,7 @@ def check_C01(tier):
     t0 = time.time()
     build_harness()
     work = fresh_dir(WORK, "C01")
-    k = T(tier, 1, 15)
+    k = T(tier, 1, 60)
     plan = [dict(n=90 * k, mode="seq", pressure=False, budget=(8, 30), wide=True, max_main_params=5, tag="plain"),
             dict(n=50 * k, mode="seq", pressure=True, twins=True, budget=(8, 24), tag="press")]
     art, index, args, meta = stages.build(work, plan, emit="fun,x86")
@@ -644,6 +644,41 @@ def check_C17(tier):
         lp = os.path.join(work, "log%d.ndjson" % pi)
         sccv("driver-replay", sp, os.path.join(work, "cwd%d" % pi), lp, timeout=3000)
         logs.append([json.loads(l) for l in open(lp)])
+    # 2b. many program shapes, each stage, three processes: the whole pipeline over generated programs and the corpus is run by
+    # three separate harness processes (fresh hash seeds); every dumped stage and every assembly text (labels renamed by first
+    # appearance) is hashed and enters the same trace validation: process 0 defines the reference, the others must reproduce it
+    import hashlib, gen_fun
+
+    def canon(text):
+        labs = []
+        for m in re.finditer(r"^\s*([A-Za-z_.$][\w.$]*):", text, re.M):
+            if m.group(1) not in labs:
+                labs.append(m.group(1))
+        idx = {l: "L%d" % i for i, l in enumerate(labs)}
+        return re.sub(r"[A-Za-z_.$][\w.$]*", lambda m: idx.get(m.group(0), m.group(0)), text)
+    stages.EFFECTS_LIMIT = T(tier, 4, None)
+    glist = [c for c, _ in stages.corpus_cases()]
+    for nm, src, a in gen_fun.generate(seed() * 1000 + 17, T(tier, 90, 1500), mode="any", pressure=False, budget=(8, 30), wide=True):
+        glist.append({"name": "gp_" + nm, "kind": "fun", "src": src})
+    gl = os.path.join(work, "gen-list.json")
+    json.dump(glist, open(gl, "w"))
+    exts = ["core.json", "coreuniq.json", "corefs.json", "axcut.json", "axcutlin.json", "x86.asm", "a64.asm", "rv64.asm"]
+    for gi in range(3):
+        ga = os.path.join(work, "gen-art%d" % gi)
+        sccv("pipeline", gl, ga, "core,coreuniq,corefs,axcut,axcutlin,x86,a64,rv64", timeout=3000)
+        evs = []
+        for c in glist:
+            for ext in exts:
+                fp_ = os.path.join(ga, "%s.%s" % (c["name"], ext))
+                if os.path.exists(fp_):
+                    t_ = open(fp_).read()
+                    evs.append({"hist": "gen", "path": c["name"], "kind": ext.split(".")[0], "outcome": "ok",
+                                "hash": hashlib.sha1((canon(t_) if ext.endswith(".asm") else t_).encode()).hexdigest()[:16]})
+        shutil.rmtree(ga, ignore_errors=True)
+        if gi == 0:
+            logs[0] += evs
+        else:
+            logs.append(evs)
     # 3. reference = first occurrence in process 0; every log (process 0 included) is validated against it
     ref = {}
     for e in logs[0]:
@@ -687,7 +722,8 @@ def check_C17(tier):
                     "rule": "all request histories of length %d over 2 sources x 8 printable stages enumerated by TLC from spec/Pipeline.tla, "
                             "replayed on fresh Drivers in one process and samples of them in %d further processes (fresh hash seeds); every "
                             "recorded content hash (assembly modulo label renaming) validated by spec/TracePipeline.tla against the first "
-                            "process' first answer" % (T(tier, 3, 4), nproc - 1)},
+                            "process' first answer; in addition the whole pipeline over generated programs and the corpus is run by three "
+                            "separate processes and every stage dump / assembly text enters the same validation" % (T(tier, 3, 4), nproc - 1)},
                    time.time() - t0, len(viols), assumptions=["FNV-1a 64 hashes stand for contents", "label renaming = first-appearance order of defined labels"])
     return 1 if new else 0
 
@@ -956,6 +992,25 @@ def size_families(k):
             return "let d%d: T = label b%d { hk(%s, b%d) }; d%d.case { A => %s, B(v) => %s, C(l, r) => 0 }" % (i, i, var, i, i, var, rest)
         raise ValueError(kind)
 
+    def branch_fn(kind, i, var):
+        # a branch point whose result is a codata value (used as the receiver of a destructor call)
+        alt = "{ mk() }"
+        if kind == "if":
+            return "(if %s == %d %s else %s)" % (var, i, alt, alt)
+        if kind == "ifz":
+            return "(if %s <= 0 %s else %s)" % (var, alt, alt)
+        if kind == "case":
+            return "(t.case { A => mk(), B(v) => mk(), C(l, r) => mk() })"
+        if kind == "pair":
+            return "((if %s == %d { A } else { B(%d) }).case { A => mk(), B(v) => mk(), C(l, r) => mk() })" % (var, i, i)
+        if kind == "label":
+            return "(label a%d { if %s == %d { goto a%d (mk()) } else { mk() } })" % (i, var, i, i)
+        if kind == "letcall":
+            return "(let d%d: T = h(%s); d%d.case { A => mk(), B(v) => mk(), C(l, r) => mk() })" % (i, var, i)
+        if kind == "letlabel":
+            return "(let d%d: T = label b%d { hk(%s, b%d) }; d%d.case { A => mk(), B(v) => mk(), C(l, r) => mk() })" % (i, i, var, i, i)
+        raise ValueError(kind)
+
     def nest(kind, pos, i):
         # the program of depth k-i: branch point i, then the rest in position `pos`
         if i == k:
@@ -963,6 +1018,8 @@ def size_families(k):
         rest = nest(kind, pos, i + 1)
         if pos == "nested":
             return nested(kind, i, "x0", rest)
+        if pos == "recv":      # the branch point is the receiver of a destructor call that is not in tail position
+            return "let y%d: i64 = %s.ap(x0); %s" % (i, branch_fn(kind, i, "x0"), rest)
         br = branch(kind, i, "x%d" % i if pos == "let" else "x0")
         if pos == "let":
             return "let x%d: i64 = %s; %s" % (i + 1, br, rest)
@@ -983,7 +1040,7 @@ def size_families(k):
         raise ValueError(pos)
     fams = {}
     for kind in ("if", "ifz", "case", "pair", "label", "letcall", "letlabel"):
-        for pos in ("let", "call", "callarg", "operand", "ctor", "dtor", "print", "scrut", "nested"):
+        for pos in ("let", "call", "callarg", "operand", "ctor", "dtor", "print", "scrut", "nested", "recv"):
             body = nest(kind, pos, 0)
             fams["%s_%s" % (kind, pos)] = decl + "def g(t: T, x0: i64): i64 { %s }\ndef main(x0: i64): i64 { g(C(A, B(x0)), x0) }\n" % body
     return fams
@@ -1065,10 +1122,10 @@ def check_C19(tier):
     new = triage("C19", viols)
     write_evidence("C19", tier, "exploration",
                    {"evaluations": len(fams) * len(ks), "distinct_nontrivial": len(fams),
-                    "rule": "63 scalable families (7 kinds of branch point: if, zero-test, 3-way match, critical pair, label, match on a "
-                            "let-bound call, match on a let-bound label block; x 9 positions of the rest of the program: let body, after a "
-                            "call, call argument, operand, constructor argument, destructor argument, after a print, scrutinee, and "
-                            "nested inside one branch) at depth 4, 8, 12, 16 "
+                    "rule": "70 scalable families (7 kinds of branch point: if, zero-test, 3-way match, critical pair, label, match on a "
+                            "let-bound call, match on a let-bound label block; x 10 positions of the rest of the program: let body, after a "
+                            "call, call argument, operand, constructor argument, destructor argument, after a print, scrutinee, "
+                            "nested inside one branch, and after a destructor call whose receiver is the branch point) at depth 4, 8, 12, 16 "
                             "through the real pipeline; size = node count of each dumped stage / instruction count of each backend's text; "
                             "spec/Sizes.tla evaluates Growth and Quadratic; a family/stage pair is non-trivial when its four sizes differ",
                     "samples": [{"family": f["name"], "stage": f["stage"], "source_tokens": f["src"], "sizes": f["size"]} for f in fams[:6]],
